@@ -336,6 +336,23 @@ func runOutputs(c *Ctx, prop string) {
 			w.Sample(map[string]interface{}{"call": call.String(), "route": routeNames[route], "output_q": q(out.out)})
 		}
 	})
+	// (a') the fixed list of calls at unusual scale (many directives and operands, deep nesting, long containers and strings), all routes.
+	sc := scaleCalls()
+	c.AddCount("scale_calls", int64(len(sc)))
+	c.ParallelFor(int64(len(sc))*6, func(w *Worker, i int64) {
+		call := sc[i/6]
+		route := int(i % 6)
+		if route == routeErrorf && call.Sp {
+			return
+		}
+		out, built := runCall(route, call)
+		w.Eval(1)
+		if !built || out.panicked {
+			w.Count("scale_call_panicked", 1)
+			return
+		}
+		oracle(w, out.out, func() interface{} { return map[string]interface{}{"scale_call_index": i / 6, "format_prefix_q": q(clip(call.format(), 80)), "operands": len(call.Args), "route": routeNames[route]} }, true)
+	})
 	// (c) SafeWriter histories.
 	nh := c.pick(300000, 5000000)
 	c.ParallelFor(nh, func(w *Worker, i int64) {
